@@ -96,9 +96,16 @@ def same(R, have, want, exact=False, tol=1e-8):
         return h == w
     if R in ("Boolean",):
         return bool(h) == bool(w)
-    if R in ("MaxTimes", "MaxPlus"):
+    if R == "MaxPlus":
         try:
             return float(h) == float(w)
+        except (TypeError, ValueError):
+            return False
+    if R == "MaxTimes":
+        # exact up to the library's fixed-point truncation: CFG.agenda ignores updates that move a value
+        # by <= 1e-12 (absolute), so max-times values below that may legitimately come out as 0
+        try:
+            return float(h) == float(w) or abs(float(h) - float(w)) <= 1e-11
         except (TypeError, ValueError):
             return False
     if R in ("Expectation", "Entropy"):
@@ -231,3 +238,54 @@ def dense_from_wfsa(A, R, exact_floats=True):
         stop[ix[q]] = stop[ix[q]] + conv(w)
     arcs = [(ix[i], a, ix[j], conv(w)) for i, a, j, w in A.arcs()]
     return fsaref.Dense(n, start, stop, arcs, zero, one, idem)
+
+
+# ---------------------------------------------------------------------------
+# transducers
+def build_fst(t, R):
+    from genlm.grammar import FST
+
+    Rcls = SR.BY_NAME[R]
+    F = FST(Rcls)
+    names = t["names"]
+    for q in names:
+        F.add_state(q)
+    for i, w in t["start"]:
+        F.add_I(names[i], lib_weight(R, w, 0))
+    for i, w in t["stop"]:
+        F.add_F(names[i], lib_weight(R, w, 0))
+    for idx, (i, ab, j, w) in enumerate(t["arcs"]):
+        F.add_arc(names[i], (ab[0], ab[1]), names[j], lib_weight(R, w, idx))
+    return F
+
+
+def fst_ref(t, R):
+    "transducer case with weights converted for the reference (see fstref)"
+    conv, zero, one, idem = _conv_for(R)
+    return (
+        {"n": t["n"], "start": [[i, conv(w)] for i, w in t["start"]], "stop": [[i, conv(w)] for i, w in t["stop"]],
+         "arcs": [[i, (ab[0], ab[1]), j, conv(w)] for i, ab, j, w in t["arcs"]]},
+        zero, one, idem,
+    )
+
+
+def fst_ref_from_lib(F, R):
+    "reference view of a *library* transducer (reads states/start/stop/arcs only); bare-epsilon labels count as (eps, eps)"
+    if R in FIELD:
+        conv = lambda w: Fr(have_value(R, w))  # noqa: E731
+        zero, one, idem = Fr(0), Fr(1), False
+    elif R == "Boolean":
+        conv, zero, one, idem = (lambda w: cfgref.BoolV(bool(w.score))), cfgref.BoolV(False), cfgref.BoolV(True), True
+    else:
+        conv, zero, one, idem = (lambda w: cfgref.MaxTimesV(w.score)), cfgref.MaxTimesV(0), cfgref.MaxTimesV(1), True
+    states = sorted(F.states, key=repr)
+    ix = {s: i for i, s in enumerate(states)}
+    arcs = []
+    for i, ab, j, w in F.arcs():
+        if ab == "":
+            ab = ("", "")
+        arcs.append([ix[i], (ab[0], ab[1]), ix[j], conv(w)])
+    return (
+        {"n": len(states), "start": [[ix[q], conv(w)] for q, w in F.start.items()], "stop": [[ix[q], conv(w)] for q, w in F.stop.items()], "arcs": arcs},
+        zero, one, idem,
+    )
